@@ -98,7 +98,7 @@ Check C19_subnet_expansion_total : forall base len : N,
 Print Assumptions C19_subnet_expansion_total.
 
 Example C19_subnet_nonvacuous :
-  apply_subnet_range 3221225984 24 = Ok (Some (3221225985, 3221226237))      (* 192.0.2.0/24: .1 .. .253 *)
+  apply_subnet_range 3221225984 24 = Ok (Some (3221225985, 3221226238))      (* 192.0.2.0/24: .1 .. .254 *)
   /\ apply_subnet_range 3221225984 32 = Ok None /\ apply_subnet_range 3221225984 31 = Ok None
   /\ apply_subnet_range 0 0 = Err E_toolarge.
 Proof. vm_compute. repeat split. Qed.
